@@ -21,7 +21,8 @@ Statement clauses modelled
 R1 round robin over the transports that can still be tried
 R2 at most max_retries+1 attempts per transport since that transport's last successful join
    (max_retries == -1: unlimited)
-R3 no attempt on a transport after an error on it that the classifier called fatal
+R3 no attempt on a transport after an error on it that the classifier called fatal (the classifier's
+   actual answers are an input; is_fatal() below is what a classifier looking at the outcome says)
 R4 first attempt of a transport: no delay; later attempts: wait <= max_retry_delay of that transport
 R5 a failed / lost connection is followed by a new attempt while any transport has attempts left
 R6 start() result: ok after normal leave / main finished / stop(); error after main failed or when
@@ -89,8 +90,9 @@ class State:
                 return ("attempt", t, not self.ever[t], tc.get("max_retry_delay", 300))
         return ("done", "err", "exhausted")
 
-    def apply(self, t, outcome):
-        """an attempt on transport t happened and ended with outcome"""
+    def apply(self, t, outcome, fatal=None):
+        """an attempt on transport t happened and ended with outcome; fatal = what the configured
+        classifier answered for the error of this attempt (None: derive it from the outcome)"""
         self.since_join[t] += 1
         self.ever[t] = True
         self.last = t
@@ -104,7 +106,7 @@ class State:
             self.final = ("ok", outcome)
         elif outcome in END_ERR:
             self.final = ("err", outcome)
-        elif is_fatal(self.cfg.get("is_fatal"), outcome):
+        elif (is_fatal(self.cfg.get("is_fatal"), outcome) if fatal is None else fatal):
             self.fatal[t] = True
 
     def why_not(self, t):
@@ -119,7 +121,8 @@ class State:
 
 
 def judge_sequence(cfg, attempts, ended, horizon=None, stop_at=None):
-    """attempts: [(idx, outcome, wait)] in order, wait = virtual seconds between the end of the
+    """attempts: [(idx, outcome, wait[, classifier answer])] in order (classifier answer: what the
+    is_fatal callback returned for the error of that attempt, None/absent = derive from the outcome), wait = virtual seconds between the end of the
     previous attempt (or start()) and this attempt, None if unknown.
     ended: what the run looked like when nothing more could happen:
         {"done": [("ok"|"err", ...)], "truncated": bool}
@@ -129,7 +132,9 @@ def judge_sequence(cfg, attempts, ended, horizon=None, stop_at=None):
     st = State(cfg)
     problems = []
     judged = attempts if stop_at is None else attempts[:stop_at]
-    for i, (idx, outcome, wait) in enumerate(judged):
+    for i, rec in enumerate(judged):
+        idx, outcome, wait = rec[0], rec[1], rec[2]
+        fatal_answer = rec[3] if len(rec) > 3 else None
         exp = st.next()
         if exp[0] == "done":
             why = st.why_not(idx) or "exhausted"
@@ -185,7 +190,7 @@ def judge_sequence(cfg, attempts, ended, horizon=None, stop_at=None):
         if outcome is None:
             # attempt started but not answered (exploration horizon): nothing after it is judged
             return problems, st, ("unknown",)
-        st.apply(idx, outcome)
+        st.apply(idx, outcome, fatal_answer)
     exp = st.next()
     if stop_at is not None:
         return problems, st, exp
